@@ -388,8 +388,8 @@ void TasmanianSparseGrid::getDifferentiationWeights(const double x[], double wei
     Data2D<double> x_tmp;
     // Jacobian of f(.) at g(x).
     base->getDifferentiationWeights(formCanonicalPoints(x, x_tmp, 1), weights);
-    // Jacobian of f(g(.)) at x.
-    if (not domain_transform_a.empty()) {
+    // Jacobian of f(g(.)) at x, diffCanonicalTransform() reports the transforms it cannot differentiate (conformal maps).
+    if (not domain_transform_a.empty() or not conformal_asin_power.empty()) {
         int num_dimensions = getNumDimensions();
         int num_points = getNumPoints();
         std::vector<double> jacobian_g_diag = diffCanonicalTransform<double>();
@@ -480,8 +480,8 @@ void TasmanianSparseGrid::differentiate(const double x[], double jacobian[]) con
     Data2D<double> x_tmp;
     // Jacobian of f(.) at g(x).
     base->differentiate(formCanonicalPoints(x, x_tmp, 1), jacobian);
-    // Jacobian of f(g(.)) at x.
-    if (not domain_transform_a.empty()) {
+    // Jacobian of f(g(.)) at x, diffCanonicalTransform() reports the transforms it cannot differentiate (conformal maps).
+    if (not domain_transform_a.empty() or not conformal_asin_power.empty()) {
         int num_dimensions = getNumDimensions();
         int num_outputs = getNumOutputs();
         std::vector<double> jacobian_g_diag = diffCanonicalTransform<double>();
